@@ -58,8 +58,24 @@ func isAddrType(t types.Type) bool {
 	return isNamed(t, "go-ethereum/common", "Address")
 }
 
+// ambiguousPkgNames: package names carried by more than one loaded package (types, db, grpc, ...). Types of such
+// packages are qualified by the last two path elements, so that regions and sorts of equally named types of different
+// packages (agglayer/types.CertificateHeader vs aggsender/types.CertificateHeader) are kept apart.
+var ambiguousPkgNames = map[string]bool{}
+
+func pkgQualifier(p *types.Package) string {
+	if !ambiguousPkgNames[p.Name()] {
+		return p.Name()
+	}
+	parts := strings.Split(p.Path(), "/")
+	if len(parts) >= 2 {
+		return parts[len(parts)-2] + "/" + parts[len(parts)-1]
+	}
+	return p.Path()
+}
+
 func shortTypeName(t types.Type) string {
-	return types.TypeString(t, func(p *types.Package) string { return p.Name() })
+	return types.TypeString(t, pkgQualifier)
 }
 
 func (tm *TypeMap) SortOf(t types.Type) *Sort {
